@@ -56,6 +56,14 @@ VARIANTS = {"quick": 1, "thorough": 4}
 _TIER = ["quick"]
 
 
+def worker_init(ctx):
+    # an address-space ceiling for the worker: runaway allocations end in MemoryError inside the case (and are then seen by the
+    # in-flight memory probe) instead of in the kernel's OOM killer taking the whole shard down
+    import resource
+
+    resource.setrlimit(resource.RLIMIT_AS, (8 << 30, 8 << 30))
+
+
 def inputs(seed: int):
     """The corpus: one set of valid inputs in the quick tier, four differently drawn sets in the thorough tier."""
     key = (seed, _TIER[0])
@@ -156,6 +164,7 @@ def run(case: dict, ctx) -> dict:
     budget = int(min(2.5e5 + 100 * in_len + 8 * REQ, 3e7))
     ctx.steps.begin_case(budget)
     ctx.steps.cpu_budget = 60.0
+    ctx.steps.mem_probe, ctx.steps.mem_budget = ctx.mem.peak, 1 << 30
     fh = corpus.make_handle(inp, raw)
     ctx.mem.begin()
     o = call(corpus.exercise, inp.fmt, fh, inp.aux)
@@ -265,6 +274,7 @@ def _crafted(case, ctx, res):
     label = f"crafted:{c}"
     ctx.steps.begin_case(int(3e7))
     ctx.steps.cpu_budget = 90.0  # seconds of thread CPU per crafted case, judged while the case runs (the unchanged tree needs < 15)
+    ctx.steps.mem_probe, ctx.steps.mem_budget = ctx.mem.peak, 1 << 30  # and 1 GiB of traced memory (crafted inputs are a few MiB at most)
     if c.startswith("hv-"):
         from dissect.hypervisor.descriptor.hyperv import HyperVFile
 
